@@ -177,6 +177,13 @@ func (rn *runner) streamAlias(g *gen, opList []string) {
 				if g.r.Intn(4) == 0 {
 					y = new(apd.Decimal).Set(x)
 				}
+				if op == "pow" && g.r.Intn(5) == 0 {
+					// integer exponents large enough for the power to leave the working exponent range: the
+					// overflow/underflow exits of the integer path, under every aliasing pattern
+					x = mk([]string{"10", "0.1", "7", "1.5", "-10", "0.3", "1E+5", "1E-5"}[g.r.Intn(8)])
+					y = apd.New(g.pick(150000, 200000, 400000, 99999999, 3, 2), 0)
+					y.Negative = g.r.Intn(2) == 0
+				}
 			}
 		} else {
 			c = g.ctx(def.p0, false)
